@@ -16,7 +16,7 @@ it completes by itself after that many virtual ms.  A `late` port does not exist
 through the real `core_ports.load` with persisted data {"enabled": true, "value": v} (persist.get is faked).
 
 Commands: ["Tick"], ["Advance", ms], ["SetSource", p, v], ["CompleteRead", p, "val"|"skip"|"err"],
-["CompleteWrite", p, "ok"|"exc"], ["ApiWrite", p, v], ["SetSequence", p, values, delays, repeat], ["SetAttr", p, n] (display_name := "n<n>"; runs a polling pass), ["Reset", p],
+["CompleteWrite", p, "ok"|"exc"|"timeout"] (exc = PortError, timeout = PortTimeout), ["ApiWrite", p, v], ["SetSequence", p, values, delays, repeat], ["SetAttr", p, n] (display_name := "n<n>"; runs a polling pass), ["Reset", p],
 ["CancelWaitingReader", p] (cancels one reset() task that waits in p's read guard, if any),
 ["Disable", p] / ["Enable", p] (PATCH /ports/p {"enabled": ...} through the real patch_port), ["SetExpr", p, text],
 ["Load", p, v].
@@ -131,9 +131,19 @@ class Env:
                 orig_put, orig_get = q.put_nowait, q.get_nowait
                 port = self
 
+                def split(item):
+                    # (value, future, ...): tolerate extra fields added by a refactoring
+                    futs = [x for x in item[1:] if isinstance(x, asyncio.Future)]
+                    return item[0], (futs[0] if futs else None)
+
                 def put_nowait(item):
                     orig_put(item)
-                    value, fut = item
+                    value, fut = split(item)
+                    if id(fut) in port.futs and port.cur_ticket is None:
+                        # an entry that was already dequeued is queued again: not a step of the model; the trace shows it
+                        # as a second WriteTake / WriteStart of the same ticket
+                        env.run.anomaly(port.get_id(), 'ticket %s queued again' % port.futs[id(fut)][0])
+                        return
                     t = port.cur_ticket
                     port.cur_ticket = None
                     if t is None:
@@ -145,7 +155,7 @@ class Env:
 
                 def get_nowait():
                     item = orig_get()
-                    value, fut = item
+                    value, fut = split(item)
                     t = port.futs.get(id(fut), (-1, None))[0]
                     if asyncio.current_task() is port._write_value_task:
                         env.run.log(port.get_id(), 'WriteTake', num(value), t)
@@ -245,6 +255,9 @@ class Env:
                 if outcome == 'exc':
                     env.run.log(self.get_id(), 'WriteEnd' if in_loop else 'DirectEnd', 'exc')
                     raise core_ports.PortError('harness write error')
+                if outcome == 'timeout':
+                    env.run.log(self.get_id(), 'WriteEnd' if in_loop else 'DirectEnd', 'exc')
+                    raise core_ports.PortTimeout('harness write timeout')
                 self.echo = value
                 env.run.log(self.get_id(), 'WriteEnd' if in_loop else 'DirectEnd', 'ok')
 
